@@ -145,6 +145,16 @@ def async_case(chk, s, rng, c, n):
     doc = ksi.imprint(ALG[req["alg"]], b"c07a-%d" % rng.randrange(1 << 30)); level = req["level"]
     s.cmd("NEW 2 10 10 10 10")
     out = s.cmd("ADD 1 %s %d" % (doc.hex(), level))
+    if req["api"] == "asyncReuse" and int(netsim.kv(out[-1])["rc"], 16) == 0:
+        # first use of the handle: an honest exchange; the handle is kept by the caller and submitted again
+        o1 = s.cmd("RUN")
+        raw1 = b"".join(bytes.fromhex(l.split("data=")[1]) for l in o1 if l.startswith("E send"))
+        rid1 = int.from_bytes(wire.request_fields(raw1)["payload"].get(1, b""), "big")
+        s.cmd("S2C " + wire.sign_reply(wire_good("sign"), rng, rid1, doc, level, None).hex())
+        l1 = [l for l in s.cmd("RUNKEEP") if l.startswith("R run")][-1]
+        if " h=1 " not in l1 + " " or " state=3 " not in l1 + " ":
+            chk.violation("async-first-use-failed", "the first, honest use of a handle did not complete with a response: %s" % l1[:200], dict(log=s.log[-12:])); return
+        out = s.cmd("READD 1")
     f = netsim.kv(out[-1])
     if int(f["rc"], 16) != 0:
         if req["alg"] != "sha1":
@@ -172,9 +182,11 @@ def async_case(chk, s, rng, c, n):
         s.cmd("TICK 11")
     f2 = dict(x.split("=", 1) for x in line.split()[2:] if "=" in x)
     ok = f2.get("state") == "3" and f2.get("sig") == "0"
+    if f2.get("esig") == "0x0":
+        chk.violation("signature-from-error-state:%s" % req["api"], "the request was handed back with an error, yet KSI_AsyncHandle_getSignature returns a signature: %s" % line[:200], dict(case=c, log=s.log[-25:]))
     if " h=1 " not in line + " ":
         chk.violation("async-never-completed", "the request was never handed back: %s" % line[:200], dict(case=c, log=s.log[-25:])); return
-    judge(chk, c, ok, f2.get("sighash") == doc.hex(), "async", line, s)
+    judge(chk, c, ok, f2.get("sighash") == doc.hex(), req["api"], line, s)
 
 
 def run(chk, tier, seed):
@@ -195,14 +207,14 @@ def run(chk, tier, seed):
         s.cmd("BNEW")
         prev = None
         for c in cases_run:
-            if c["req"]["api"] not in ("async", "http"):
+            if c["req"]["api"] not in ("async", "asyncReuse", "http"):
                 prev = blocking_case(chk, s, rng, c, prev); n += 1
         s.cmd("HNEW"); prev = None
         for c in cases_run:
             if c["req"]["api"] == "http":
                 prev = http_case(chk, s, rng, c, prev); n += 1
         for c in cases_run:
-            if c["req"]["api"] == "async":
+            if c["req"]["api"] in ("async", "asyncReuse"):
                 async_case(chk, s, rng, c, n); n += 1
     except netsim.Died as e:
         chk.violation("crash:sign", "libksi crashed/aborted during a signing call\n%s" % str(e)[-2500:], dict(log=s.log[-40:]))
